@@ -33,6 +33,9 @@ pub fn run(_args: &[String]) -> i32 {
         // assignments (`= X` without an amount, incl. `= 0 X` and bare `= 0`) and deduced postings: what is booked into the
         // running balance must be what the register lists
         "2024/01/10 open\n    W    100 X\n    W    20 Y\n    E\n\n2024/01/15 count\n    W    = 0 X\n    E\n\n2024/01/20 refill\n    W    30 X\n    E\n\n2024/02/01 set\n    W    = 7 Y\n    V    = 5 X\n    E\n\n2024/02/05 clear\n    V    = 0\n    E\n\n",
+        // account names that are textual prefixes of one another (a parent with its own postings, a sub-account, a sibling):
+        // an account's register lists that account's postings only
+        "2024/01/01 open\n    Assets:Bank    100.00 X\n    Assets:Bank2    40.00 X\n    Equity\n\n2024/01/20 move\n    Assets:Bank:Savings    25.00 X\n    Assets:Bank    -25.00 X\n\n2024/02/01 food\n    Expenses:Food    12.50 X\n    Assets:Bank2    -12.50 X\n\n2024/02/01 fx\n    Assets    3 Y\n    Assets:Bank:Savings    -1.00 X\n\n",
     ];
     let mut bad: Vec<(String, String)> = Vec::new();
     let mut evaluated = 0u64;
@@ -63,6 +66,45 @@ fn run_one(text: &str, bad: &mut Vec<(String, String)>, evaluated_out: &mut u64)
                 let v: Decimal = it.next().unwrap().parse().unwrap();
                 reg.push((t.date, p.account.as_str().to_owned(), it.next().unwrap_or("").to_owned(), v));
             }
+        }
+    }
+    // the register proper: `Ledger::postings` per account (what `okane register FILE ACCOUNT` lists) against the whole-history report
+    {
+        let whole = match ledger.balance(&ctx, &report::query::BalanceQuery::default()) { Ok(b) => to_bal(b.into_owned()), Err(e) => { bad.push((text.to_owned(), format!("balance failed: {}", e))); Bal::new() } };
+        let mut names: std::collections::BTreeSet<String> = reg.iter().map(|r| r.1.clone()).collect();
+        names.insert("No:Such:Account".to_owned());
+        let mut listed_total = 0usize;
+        for name in &names {
+            *evaluated_out += 1;
+            let listed = ledger.postings(&ctx, &report::query::PostingQuery { account: Some(name.clone()) });
+            let mut sum: BTreeMap<String, Decimal> = BTreeMap::new();
+            let mut foreign = None;
+            for p in &listed {
+                if p.account.as_str() != name { foreign = Some(p.account.as_str().to_owned()); }
+                for sa in p.amount.iter() {
+                    let s = format!("{}", sa);
+                    let mut it = s.splitn(2, ' ');
+                    let v: Decimal = it.next().unwrap().parse().unwrap();
+                    *sum.entry(it.next().unwrap_or("").to_owned()).or_default() += v;
+                }
+            }
+            listed_total += listed.len();
+            sum.retain(|_, v| !v.is_zero());
+            let mut want = whole.get(name).cloned().unwrap_or_default();
+            want.retain(|_, v| !v.is_zero());
+            let tol: Decimal = if text.contains("format 1,000.00 X") { "0.005".parse().unwrap() } else { Decimal::ZERO };
+            let keys: std::collections::BTreeSet<&String> = sum.keys().chain(want.keys()).collect();
+            let same = keys.into_iter().all(|c| (sum.get(c).copied().unwrap_or_default() - want.get(c).copied().unwrap_or_default()).abs() <= tol);
+            if let Some(f) = foreign {
+                bad.push((format!("ledger:\n{}register of account {}", text, name), format!("the register of {} lists a posting of account {}", name, f)));
+            } else if !same {
+                bad.push((format!("ledger:\n{}register of account {}", text, name), format!("balance reports {:?} but the register sums up to {:?}", want, sum)));
+            }
+        }
+        let all = ledger.postings(&ctx, &report::query::PostingQuery { account: None }).len();
+        let n_postings: usize = ledger.transactions().map(|t| t.postings.len()).sum();
+        if all != n_postings || listed_total != n_postings {
+            bad.push((format!("ledger:\n{}", text), format!("{} postings in the ledger, the unfiltered register lists {}, the per-account registers together {}", n_postings, all, listed_total)));
         }
     }
     let d = |m: u32, dd: u32| NaiveDate::from_ymd_opt(2024, m, dd).unwrap();
